@@ -156,6 +156,7 @@ def run(tier: str) -> int:
             {"Family": "stack", "MaxLen": 3, "Starts": "all", "Sample": 250, "workers": 3},
             {"Family": "optsk", "MaxLen": 3, "Starts": "all", "Sample": 120, "workers": 3, "style": "min"},
             {"Family": "trivfx", "MaxLen": 4, "Starts": "zero", "Sample": 200, "workers": 3},
+            {"Family": "pushalt", "MaxLen": 4, "Starts": "zero", "Sample": 0, "workers": 3},
         ]
     else:
         fams = [
@@ -165,6 +166,7 @@ def run(tier: str) -> int:
             {"Family": "tags", "MaxLen": 4, "Starts": "all", "Sample": 0, "workers": 8},
             {"Family": "stack", "MaxLen": 4, "Starts": "all", "Sample": 4000, "workers": 8},
             {"Family": "trivfx", "MaxLen": 4, "Starts": "all", "Sample": 0, "workers": 8},
+            {"Family": "pushalt", "MaxLen": 5, "Starts": "all", "Sample": 0, "workers": 8},
         ]
     for f in fams:
         replay.run_family(rep, f, "tree", modes)
